@@ -277,32 +277,17 @@ theorem close_timer_stops {s : State} (h : Reach s) (hc : s.closed = false) :
       simp [hdem, hcl]
     · rw [onDemandPublisherStop_s]
 
-/-! ### held requests are bounded by the start timeout — finding `hold-no-timer` -/
+/-! ### held requests are bounded by the start timeout (finding F-C19 `hold-no-timer`, fixed in 316e99c) -/
 
 /-- a start-timeout timer is running whenever a request is on hold -/
 def HoldHasTimer (s : State) : Prop := Holding s → s.tSrcReady = true ∨ s.tPubReady = true
 
-/-- on an on-demand *static source* path this always holds -/
-theorem hold_has_timer_static {s : State} (h : Reach s) (ho : s.conf.odStatic = true) : HoldHasTimer s := by
-  obtain ⟨hi, h2⟩ := reach_inv h
-  intro hh
-  have hc : s.closed = false := by
-    cases hcl : s.closed with
-    | false => rfl
-    | true => have := hi.cl hcl; unfold Holding at hh; rw [this.2.2.1, this.2.2.2.1] at hh; simp at hh
-  exact Or.inl ((hi.o2 hc).mpr (h2.b2 ho hh))
-
-/-- the statement one would want for every path ... -/
-def hold_has_timer_full : Prop :=
-  ∀ (c : Conf) (es : List Event), c.valid = true → HoldHasTimer (run (init c) es).1
-
-/-- ... holds for all histories without a *late demand* (a request that arrives on a runOnDemand path
-while the publisher is gone but the automaton is still `ready`/`closing`) ... -/
-theorem hold_has_timer_partial (c : Conf) (hv : c.valid = true) (es : List Event)
-    (hn : noLateDemand (init c) es = true) : HoldHasTimer (run (init c) es).1 := by
+/-- **Bounded wait, full strength**: in every reachable state of every valid configuration, a held
+request has a start-timeout timer running (on-demand static source and runOnDemand paths alike). -/
+theorem hold_has_timer (c : Conf) (hv : c.valid = true) (es : List Event) : HoldHasTimer (run (init c) es).1 := by
   have hi := inv_reach c hv es
   have h2 := inv2_reach c hv es
-  have hp := holdPub_run es (init c) (inv_init c hv) (inv2_init c).1 (inv2_init c).2 hn
+  have hp := holdPub_reach c hv es
   intro hh
   have hc : (run (init c) es).1.closed = false := by
     cases hcl : (run (init c) es).1.closed with
@@ -312,16 +297,63 @@ theorem hold_has_timer_partial (c : Conf) (hv : c.valid = true) (es : List Event
   | true => exact Or.inl ((hi.o2 hc).mpr (h2.b2 ho hh))
   | false => exact Or.inr ((hi.q2 hc).mpr (hp ho hh))
 
-def cDemand : Conf := { kind := .publisher, runOnDemand := true }
+/-- **Late demand re-arms.** A describe that arrives on a runOnDemand path after the publisher has
+gone away (no stream, automaton still `ready` or `closing`) is held, cancels the close timer and arms
+the start-timeout timer: the automaton is `waiting` again. -/
+theorem late_demand_rearms {s : State} (h : Reach s) (hc : s.closed = false) (rid : Nat)
+    (ho : s.conf.odPub = true) (hs : s.stream = none) (h0 : s.odPub = .ready ∨ s.odPub = .closing) :
+    (step s (.describe rid)).1.odPub = .waiting ∧ (step s (.describe rid)).1.tPubReady = true ∧
+    (step s (.describe rid)).1.tPubClose = false ∧ rid ∈ pending (step s (.describe rid)).1 ∧
+    (step s (.describe rid)).1.hkDemand = true := by
+  obtain ⟨hi, _⟩ := reach_inv h
+  have hval := hi.valid
+  unfold Conf.valid at hval
+  have hk : s.conf.kind = .publisher := by unfold Conf.odPub at ho; simp [ho] at hval; exact hval.2
+  have hns : s.conf.odStatic = false := by unfold Conf.odStatic; simp [hk]
+  have hsrc : ¬ s.source = some .redirect := by
+    intro e; have := hi.kRedirect.mpr e; rw [hk] at this; cases this
+  have hdem : s.hkDemand = true := (hi.q3 hc).mpr (by rcases h0 with e | e <;> rw [e] <;> simp)
+  have e : (stepW (.describe rid) { s := s }).s =
+      { (holdDemand { s := s }).s with descHold := s.descHold ++ [rid] } := by
+    unfold stepW
+    rw [if_neg (by simp [hi.np]), if_neg (by simp [hc])]
+    show (closeCheck (doDescribe rid { s := s })).s = _
+    rw [closeCheck_s]
+    unfold doDescribe
+    rw [if_neg hsrc, if_neg (by simp [hs]), if_pos (by simp [ho])]
+    simp [holdDemand_s]
+  have hq2' := hi.q2' hc
+  unfold step
+  dsimp only
+  rw [e, holdDemand_s]
+  rcases h0 with e0 | e0 <;> simp [hns, e0, pending, hdem] <;> simp_all
 
-/-- ... and fails in general: publisher leaves, a describe is held with no timer and nothing started,
-the close timer then stops runOnDemand and the request stays on hold (confirmed on the real code). -/
-theorem hold_has_timer_witness : ¬ hold_has_timer_full := by
-  intro h
-  have := h cDemand [.describe 1, .addPublisher 0 true, .removePublisher 0, .describe 2] (by decide)
-  revert this
-  unfold HoldHasTimer Holding
-  decide
+/-- **Stop at the start timeout.** When the start-timeout timer of a runOnDemand path expires, every
+held request is answered, the runOnDemand pair is closed and the automaton is back in `initial` —
+from where the NEXT demand starts the command again (`start_on_first_demand_pub`). -/
+theorem start_timeout_stops_pub {s : State} (h : Reach s) (hc : s.closed = false) (ha : s.tPubReady = true) :
+    Out.hook .demand false ∈ (step s (.timer .pubReady)).2 ∧ (step s (.timer .pubReady)).1.odPub = .initial ∧
+    (step s (.timer .pubReady)).1.hkDemand = false ∧ pending (step s (.timer .pubReady)).1 = [] := by
+  obtain ⟨hi, _⟩ := reach_inv h
+  have hw := (hi.q2 hc).mp ha
+  have hdem : s.hkDemand = true := (hi.q3 hc).mpr (by rw [hw]; simp)
+  have hp := timeout_answers_all h hc .pubReady (Or.inr rfl) (by simpa [timerArmed] using ha)
+  have e : stepW (.timer .pubReady) { s := s } =
+      closeCheck (onDemandPublisherStop (failHolds .timedOut (upd (fun s => { s with tPubReady := false }) { s := s }))) := by
+    unfold stepW
+    rw [if_neg (by simp [hi.np]), if_neg (by simp [hc])]
+    show (if timerArmed s .pubReady = true then fireTimer .pubReady { s := s } else _) = _
+    rw [if_pos (by simpa [timerArmed] using ha)]
+    rfl
+  refine ⟨?_, ?_, ?_, hp⟩
+  · unfold step; rw [e]; dsimp only
+    apply mem_closeCheck
+    unfold onDemandPublisherStop
+    simp [failHolds_s, hdem, hw]
+  · unfold step; rw [e]; dsimp only; rw [closeCheck_s, onDemandPublisherStop_s]
+  · unfold step; rw [e]; dsimp only; rw [closeCheck_s, onDemandPublisherStop_s]
+
+def cDemand : Conf := { kind := .publisher, runOnDemand := true }
 
 /-! #### non-vacuity -/
 
@@ -338,7 +370,13 @@ example : (run (init cDemand)
    [.hook .demand true, .arm .pubReady],
    [.reply 3 .timedOut, .hook .demand false]] := by decide
 
-example : noLateDemand (init cDemand) [.describe 1, .addPublisher 0 true, .describe 2, .timer .pubClose] = true := by decide
-example : noLateDemand (init cDemand) [.describe 1, .addPublisher 0 true, .removePublisher 0, .describe 2] = false := by decide
+/-- the publisher-went-away history (former finding F-C19): the late request re-arms the start timer
+(the close timer is cancelled), the timeout answers it and stops runOnDemand, the next demand restarts it -/
+example : (run (init cDemand)
+    [.describe 1, .addPublisher 0 true, .removePublisher 0, .describe 2, .addReader 3 1, .timer .pubClose,
+     .timer .pubReady, .describe 4]).2.drop 3 =
+  [[.disarm .pubClose, .arm .pubReady], [], [.ignored],
+   [.reply 2 .timedOut, .reply 3 .timedOut, .hook .demand false],
+   [.hook .demand true, .arm .pubReady]] := by decide
 
 end MtxVerif.C19
